@@ -31,7 +31,7 @@ func init() {
 		},
 		Plan: func(tier string) fw.Plan {
 			if tier == "thorough" {
-				return fw.Plan{Shards: 16, CasesPerShard: 400000, TimeoutSec: 3000}
+				return fw.Plan{Shards: 96, CasesPerShard: 60000, Parallel: 16, TimeoutSec: 3000} // many short-lived shards: reflect.StructOf types are never freed
 			}
 			return fw.Plan{Shards: 16, CasesPerShard: 6000, TimeoutSec: 600}
 		},
@@ -41,7 +41,7 @@ func init() {
 
 func c01Opts(w *fw.Worker, r *fw.Rand) gen.GenOpts {
 	return gen.GenOpts{MaxDepth: w.Pick(3, 4) - r.Intn(2), MaxFields: r.Range(2, 7), SkipPct: r.Range(0, 35), StructPct: r.Range(10, 45), TagPct: 10,
-		Leaves: gen.Leaves, InitialismPct: 20}
+		Leaves: gen.Leaves, InitialismPct: 20, HollowPct: 8}
 }
 
 // setMatrix renders which layer sets which leaf (for signatures/witnesses).
